@@ -24,6 +24,17 @@ def run_demo(repo, demo):
     return rc, "\n".join(l for l in o.splitlines() if not l.startswith("WARNING"))[-600:]
 
 
+if out == "seeded":
+    # re-evaluate what is stored under /verif/seeded/<ID>-m*/ (copied to a scratch directory first)
+    out = "/tmp/seval_src_%s" % pid
+    shutil.rmtree(out, ignore_errors=True)
+    os.makedirs(out)
+    for d in sorted(glob.glob(os.path.join(V, "seeded", pid + "-m*"))):
+        k = os.path.basename(d).split("-")[1]
+        shutil.copy(os.path.join(d, "patch.diff"), os.path.join(out, k + ".diff"))
+        shutil.copy(os.path.join(d, "demo.py"), os.path.join(out, k + "_demo.py"))
+        shutil.copy(os.path.join(d, "meta.json"), os.path.join(out, k + "_meta.json"))
+
 for diff in sorted(glob.glob(os.path.join(out, "m*.diff"))):
     k = os.path.basename(diff)[:-5]
     demo = os.path.join(out, k + "_demo.py")
